@@ -583,6 +583,32 @@ def _install(T):
     def np_where(I, mask):
         return (WhereResult(mask),)
 
+    @reg("scipy.signal.correlate",
+         doc="correlate(x, y, 'full')[m] = sum_n x[n + m - (len(y)-1)] * conj(y[n]), m = 0 .. len(x)+len(y)-2")
+    def sp_correlate(I, x, y, mode="full", **kw):
+        x, y = as_array(I, x), as_array(I, y)
+        if mode != "full":
+            raise Unsupported("correlate mode")
+        d = I.dom
+        sx, sy = x.snap(), y.snap()
+        nx, ny = x.n, y.n
+        cx = x.dtype == "complex" or y.dtype == "complex"
+        zero = V.Cx(Fraction(0), Fraction(0)) if cx else Fraction(0)
+        xz = lambda j: V.s_ite(V.b_and(V.s_cmp(">=", j, 0), V.s_cmp("<", j, nx)), sx(j), zero)
+        dt = V.promote(x.dtype, y.dtype)
+        return Arr.build(nx + ny - 1, lambda m: d.sum(0, ny, lambda n: xz(n + m - (ny - 1)) * V.s_conj(sy(n))), dt)
+
+    @reg("scipy.linalg.toeplitz", doc="toeplitz(c, r)[i, j] = c[i-j] if i >= j else r[j-i]  (c: first column, r: first row)")
+    def sp_toeplitz(I, c, r=None):
+        c = as_array(I, c)
+        if r is None:
+            rr = c.conjugate()
+        else:
+            rr = as_array(I, r)
+        sc, sr = c.snap(), rr.snap()
+        dt = V.promote(c.dtype, rr.dtype)
+        return Arr2.build(c.n, rr.n, lambda i, j: V.s_ite(V.s_cmp(">=", i, j), V.cast_to(sc(i - j), dt), V.cast_to(sr(j - i), dt)), dt)
+
     @reg("numpy.linalg.svd",
          doc="svd(A) -> (U, S, Vh): deterministic function of the matrix; S has min(rows, cols) entries, non-increasing "
              ">= 0; Vh is cols x cols, row i = conjugate of the i-th right singular vector (A-SVD)")
